@@ -28,7 +28,7 @@ def decodeKll (ty : ItemType) (b : Bytes) : Option Decoded :=
   match Kll.decode sd Kll.codeCfg b with
   | none => none
   | some (img, r) =>
-    some { content := (Kll.project Kll.codeCfg img).line, reenc := Kll.encode sd Kll.codeCfg img,
+    some { content := ((Kll.project Kll.codeCfg img).canon ty).line, reenc := Kll.encode sd Kll.codeCfg img,
            size := Kll.serializedSize sd Kll.codeCfg img, rest := r.length,
            fields := fieldsLine (Kll.fields sd (ty == .str) img) }
 
@@ -38,7 +38,7 @@ def decodeQuant (ty : ItemType) (b : Bytes) : Option Decoded :=
   match Quantiles.decode sd c b with
   | none => none
   | some (img, r) =>
-    some { content := (Quantiles.project img).line, reenc := Quantiles.encode sd c img,
+    some { content := ((Quantiles.project img).canon ty).line, reenc := Quantiles.encode sd c img,
            size := Quantiles.serializedSize sd c img, rest := r.length,
            fields := fieldsLine (Quantiles.fields sd (ty == .str) c img) }
 
@@ -48,7 +48,7 @@ def decodeReq (ty : ItemType) (b : Bytes) : Option Decoded :=
   match Req.decode sd c b with
   | none => none
   | some (img, r) =>
-    some { content := (Req.project ty img).line, reenc := Req.encode sd c img,
+    some { content := ((Req.project ty img).canon ty).line, reenc := Req.encode sd c img,
            size := Req.serializedSize sd c img, rest := r.length,
            fields := fieldsLine (Req.fields sd (ty == .str) img) }
 
@@ -85,7 +85,7 @@ def quantLegacy (ty : ItemType) (w : List String) : String :=
           levels := chunks k (Quantiles.popCount (n / (2 * k))) (items.drop (bbN + exN)) }
       let img := if ver == c.ver1 then Quantiles.legacyV1 c k unused body else Quantiles.legacyV2 c k unused body
       if Quantiles.WF sd c img then
-        "IMG quant." ++ tyName ty ++ " " ++ listBytesHex (Quantiles.encodeLegacy sd c img) ++ " | " ++ (Quantiles.project img).line
+        "IMG quant." ++ tyName ty ++ " " ++ listBytesHex (Quantiles.encodeLegacy sd c img) ++ " | " ++ ((Quantiles.project img).canon ty).line
       else "BAD not-wf"
     | _, _, _, _, _, _, _, _ => "BAD args"
   | _ => "BAD args"
@@ -118,7 +118,7 @@ def kllLegacy (ty : ItemType) (w : List String) : String :=
       let img := Kll.legacySingle Kll.codeCfg k (lz == "1") it.toList
       if Kll.WF sd Kll.codeCfg img then
         "IMG kll." ++ (match ty with | .f32 => "f32" | .f64 => "f64" | .i64 => "i64" | .str => "str") ++ " " ++
-          listBytesHex (Kll.encode sd Kll.codeCfg img) ++ " | " ++ (Kll.project Kll.codeCfg img).line
+          listBytesHex (Kll.encode sd Kll.codeCfg img) ++ " | " ++ ((Kll.project Kll.codeCfg img).canon ty).line
       else "BAD not-wf"
     | _, _ => "BAD args"
   | _ => "BAD args"
